@@ -7,6 +7,13 @@ use std::path::PathBuf;
 use std::sync::Mutex;
 use std::time::Instant;
 
+/// Where evidence and replay files are written: `<verif>/evidence`, unless a run against a
+/// deliberately broken tree (tools/run_mutants.py) redirects it so that the evidence of the
+/// unchanged tree is not overwritten.
+pub fn evidence_dir() -> PathBuf {
+    std::env::var_os("WAXMC_EVIDENCE_DIR").map(PathBuf::from).unwrap_or_else(|| verif_dir().join("evidence"))
+}
+
 /// The directory the machinery lives in: the driver passes its own location (so that a snapshot of
 /// /verif run elsewhere reads and writes its own files); `/verif` otherwise.
 pub fn verif_dir() -> PathBuf {
@@ -209,7 +216,7 @@ impl Report {
                 self.prop, class, what, raised(class).max(*n), example
             );
         }
-        let replay_dir = verif_dir().join("evidence").join("replays");
+        let replay_dir = evidence_dir().join("replays");
         let _ = std::fs::create_dir_all(&replay_dir);
         // remove stale replay files of this property
         if let Ok(rd) = std::fs::read_dir(&replay_dir) {
@@ -280,7 +287,7 @@ impl Report {
             "wall_s": wall,
             "violations": violations.len(),
         });
-        let evpath = verif_dir().join("evidence").join(format!("{}.json", self.prop));
+        let evpath = evidence_dir().join(format!("{}.json", self.prop));
         if let Err(e) = std::fs::write(&evpath, serde_json::to_string_pretty(&ev).unwrap()) {
             eprintln!("machinery: cannot write evidence {}: {}", evpath.display(), e);
             return 2;
